@@ -31,7 +31,7 @@ VERIF = core.VERIF_DIR
 MACHINE_OF = {
     "C03": "batch", "C09": "batch",
     "C05": "hvsrobj", "C06": "hvsrobj", "C08": "hvsrobj", "C11": "hvsrobj",
-    "C12": "hvsrobj", "C20": "hvsrobj",
+    "C12": "hvsrobj", "C13": "hvsrobj", "C20": "hvsrobj",
     "C07": "reader", "C15": "settings", "C18": "recording", "C19": "cli",
 }
 BUDGET = {  # seconds of search (quick, thorough)
